@@ -23,9 +23,10 @@ Controls: sequences whose composition is the identity (commuting pairs, and non-
 `[S, T, S⁻¹, T']`) must return the input image, offset and voxel size.
 Tolerance stream (`mode = tol`): non-dyadic scalings (3, 10, 1000, 1/1000, 1.5 …), borders of the grid dark,
 relative tolerance 2^-20 in exact rational arithmetic.
-Known findings exercised here (signatures in known_findings/C16.json): the unit of length is dropped, connectors
-of a VoxelNeuron are not transformed (and inflate the bounding box the resampling is computed from), the cached
-coordinate map is stale after `TransformSequence.append`.
+Regression cases for defects found by this stream and fixed in navis (known_findings/C16.json, status "fixed"; no
+signature, so a regression is a VIOLATION): the unit of length of the voxel size is kept; connectors of a VoxelNeuron
+are transformed as points and do not influence the resampling grid (nor does the way the neuron was built: from a
+grid or from voxel coordinates); the cached coordinate map is not re-used after `TransformSequence.append`.
 """
 import copy
 import itertools
@@ -40,13 +41,6 @@ from navis.transforms.templates import registry
 from navis.transforms import xfm_funcs
 
 import harness.c16 as B
-
-SIG_UNITS = 'xform / VoxelNeuron / unit of length dropped (units become dimensionless)'
-SIG_VXCONN = 'xform / VoxelNeuron with connectors / connector coordinates left untransformed'
-SIG_VXCONN_BBOX = ('xform / VoxelNeuron with connectors outside the voxel grid / image resampled relative to the '
-                   'connector-inflated bounding box')
-SIG_STALE = ('xform / VoxelNeuron / coordinate map cached per TransformSequence object: stale after '
-             'TransformSequence.append')
 
 EPS_TOL = Fraction(1, 2 ** 20)
 EPS_TOL_TOK = f'1/{2 ** 20}'
@@ -307,10 +301,23 @@ def check_image(ctx, case, x, G, steps, out, tag, eps_tok, exact):
                              f'grid is not found there with its value (Lean landsOK, {n} landing voxels)', case)
     if exact and mo:
         ctx.corr(f'off={off_t} pitch={pitch_t} vox={vox_t}', model, f'{tag}: transformed image (navis vs Lean imageSparse)', case)
-    # unit of length (known finding)
+    # connectors of a VoxelNeuron are points: moved by the forward transform, every other column kept (Lean `checkTable`)
+    if getattr(x, 'has_connectors', False):
+        if not getattr(out, 'has_connectors', False):
+            ctx.oracle(False, f'{tag}: xform(VoxelNeuron) dropped the connector table', case)
+        else:
+            rin, rout = B.table_rows(x.connectors), B.table_rows(out.connectors)
+            ok = ctx.ask(f'c16.checkt {FA} | {B.rows_tok(rin)} | {B.rows_tok(rout)}') == 'ok=1' if exact else \
+                all(B.close_list(','.join(B.rt(v) for v in a[:3]), ','.join(B.rt(v) for v in B.apply_steps_exact(steps, b[:3])))
+                    and a[3] == b[3] for a, b in zip(rout, rin)) and len(rin) == len(rout)
+            ctx.oracle(ok and list(out.connectors.columns) == list(x.connectors.columns),
+                       f'{tag}: connectors of a VoxelNeuron are not moved by the transform (or other connector columns changed): '
+                       f'in {[tuple(map(float, q[:3])) for q in rin[:2]]} out {[tuple(map(float, q[:3])) for q in rout[:2]]}', case)
+    # the unit of length survives (the magnitude = voxel size is checked above); fixed in navis (3bf45bf): a regression
+    # is a VIOLATION
     du, dx = unit_dim(out), unit_dim(x)
     ctx.oracle(du == dx, f'{tag}: xform(VoxelNeuron) turned units `{x.units}` into `{out.units}`: the unit of length '
-                         f'`{dx}` is dropped', case, signature=SIG_UNITS if du == 'dimensionless' else None)
+                         f'`{dx}` is not kept', case)
     return {'off': off_t, 'pitch': pitch_t, 'vox': vox_t}
 
 
@@ -327,6 +334,7 @@ def run_image(ctx, case):
     ctx.count('image_members', '+'.join(m[2] if len(m) > 2 else 'A' for m in members))
     ctx.count('image_mode', case.get('mode', 'exact') + ('/control' if case.get('control') else ''))
     ctx.count('voxel', 'x'.join(map(str, spec['shape'])) + '/' + spec.get('dtype', 'float32'))
+    ctx.count('voxel_built_from', 'voxel coordinates' if spec.get('from_voxels') else 'grid')
     mats = [['A', m[1]] for m in members]
     comp = [float(v) for v in compose_all([F12(m[1]) for m in members])]
     results = {}
@@ -441,7 +449,7 @@ def run_imagelist(ctx, case):
 
 
 # ---------------------------------------------------------------------------------------------
-# known findings
+# regression cases for fixed defects (stream name kept: `image-known-findings`)
 # ---------------------------------------------------------------------------------------------
 def run_imagekf(ctx, case):
     which = case['which']
@@ -468,11 +476,12 @@ def run_imagekf(ctx, case):
         r2 = (v3_tok(np.asarray(second.offset, dtype=float)), v3_tok(pitch_of(second)), vox_tok(np.asarray(second.grid)))
         r1 = (v3_tok(np.asarray(first.offset, dtype=float)), v3_tok(pitch_of(first)), vox_tok(np.asarray(first.grid)))
         res = ctx.ask(f'c16.imgcheck {fa_payload(mats)} | 0 | {G} | {r2[0]} | {r2[1]} | {r2[2]}')
+        # fixed in navis (34c1a13: the cache key includes the sequence's modification counter): regression case
         stale = res != 'ok=1' and r2 == r1
         ctx.oracle(res == 'ok=1',
                    'xform(VoxelNeuron, seq) after seq.append(...) on a TransformSequence that was used before: the image is '
                    + ('the one of the OLD sequence (coordinate map cached per sequence object)' if stale else 'not the transformed image')
-                   + f' (offset {r2[0]}, voxel size {r2[1]})', case, signature=SIG_STALE if stale else None)
+                   + f' (offset {r2[0]}, voxel size {r2[1]})', case)
         rf = (v3_tok(np.asarray(fresh.offset, dtype=float)), v3_tok(pitch_of(fresh)), vox_tok(np.asarray(fresh.grid)))
         resf = ctx.ask(f'c16.imgcheck {fa_payload(mats)} | 0 | {G} | {rf[0]} | {rf[1]} | {rf[2]}')
         ctx.oracle(resf == 'ok=1', 'xform(VoxelNeuron, fresh TransformSequence) is not the transformed image', case)
@@ -499,10 +508,13 @@ def run_imagekf(ctx, case):
         return
     got = B.pts_tok(B.arr_rows(out.connectors[['x', 'y', 'z']].values))
     untouched = got == B.pts_tok(rows_in)
-    ctx.oracle(got == want, 'xform(VoxelNeuron with connectors): connector coordinates are '
+    # fixed in navis (79e29ae: connectors are transformed as points): regression case, decided by Lean `checkTable`
+    rows_out = B.arr_rows(out.connectors[['x', 'y', 'z']].values)
+    lean_ok = ctx.ask(f"c16.checkt {fa_payload(mats)} | {B.rows_tok([q + ('_',) for q in rows_in])} | "
+                      f"{B.rows_tok([q + ('_',) for q in rows_out])}") == 'ok=1'
+    ctx.oracle(got == want and lean_ok, 'xform(VoxelNeuron with connectors): connector coordinates are '
                + ('left untransformed' if untouched else 'not the transform of the raw connector coordinates')
-               + f' (got {got[:80]}, want {want[:80]})', case,
-               signature=SIG_VXCONN if (untouched and got != want) else None)
+               + f' (got {got[:80]}, want {want[:80]})', case)
     other = [c for c in cn_before.columns if c not in 'xyz']
     ctx.oracle(all(list(out.connectors[c]) == list(cn_before[c]) for c in other), 'xform(VoxelNeuron): other connector columns changed', case)
     # the image itself: resampled relative to the grid, not to a connector-inflated bounding box
@@ -513,9 +525,9 @@ def run_imagekf(ctx, case):
     bb = np.asarray(x0.bbox, dtype=float)
     xyz = cn_before[['x', 'y', 'z']].values
     outside = bool(np.any(xyz < bb[:, 0]) or np.any(xyz > bb[:, 1]))
+    # fixed in navis (64129b2: the resampling grid comes from offset / shape / voxel size, not from `x.bbox`): regression case
     ctx.oracle(res == 'ok=1', 'xform(VoxelNeuron with connectors): the image is not the transformed image of the grid'
-               + (' (connectors outside the grid inflate the bounding box used for resampling)' if outside else ''),
-               case, signature=SIG_VXCONN_BBOX if outside else None)
+               + (' (connectors outside the grid inflate the bounding box used for resampling)' if outside else ''), case)
 
 
 # ---------------------------------------------------------------------------------------------
@@ -652,7 +664,11 @@ def gen_grid(r, pow2, dark_border=False, dtype=None):
             b += [a, e]
         blocks.append(b + [r.choice(vals)])
     units = r.choice(['1 nm', '2 nm', '1 um', '4 nm', '0.5 um', ['2 nm', '4 nm', '1 nm'], ['0.5 um', '0.5 um', '2 um'], None])
-    return {'type': 'voxel', 'shape': shape, 'blocks': blocks, 'vox': [],
+    conns = None
+    if r.random() < 0.3:     # connectors: inside the grid, outside it, far away
+        conns = [[100 + i, 0, r.choice([0, 1]), B.q4(r, -60, 60), B.q4(r), B.q4(r, -10, 30), r.choice(['a', 'b'])]
+                 for i in range(r.choice([1, 2, 4]))]
+    return {'type': 'voxel', 'shape': shape, 'blocks': blocks, 'vox': [], 'from_voxels': r.random() < 0.25, 'conns': conns,
             'offset': [r.choice([0, 3, 10, -4, 2.5]), r.choice([0, 5, -8]), r.choice([0, 7, 0.25])],
             'units': units, 'dtype': dtype, 'name': r.choice(['vx', 'img A']), 'id': r.choice([3, 2 ** 40 + 1])}
 
@@ -701,6 +717,8 @@ def gen_cases(ctx):
         dtype = None if interp else r.choice([None, None, 'uint8', 'int16'])
         c = {'obj': gen_grid(r, pow2, dtype=dtype), 'members': ms, 'mode': 'exact', 'stream': 'image',
              'wrap': r.choice(['seq', 'seq', 'list'])}
+        if interp:      # a neuron built from voxel coordinates has shape = max index + 1: not a power of two any more
+            c['obj']['from_voxels'] = False
         if r.random() < 0.75:
             c['bridge'] = gen_bridge(r, len(ms))
             # inverse-registered members need an exact inverse matrix
@@ -723,7 +741,8 @@ def gen_cases(ctx):
             ms.reverse()
         if r.random() < 0.3:
             ms.append(g_shift(r))
-        yield 'image', {'obj': gen_grid(r, False, dark_border=True, dtype=r.choice(['float32', 'float64'])), 'members': ms,
+        # (grid-built only: a neuron built from voxel coordinates ends at its last occupied voxel - no dark border)
+        yield 'image', {'obj': dict(gen_grid(r, False, dark_border=True, dtype=r.choice(['float32', 'float64'])), from_voxels=False), 'members': ms,
                         'mode': 'tol', 'stream': 'image-tolerance',
                         'bridge': {'segments': [{'n': 1, 'dir': 'fwd'}] + [{'n': 1, 'dir': 'fwd'} for _ in ms[1:]]}}
     for i in range(ctx.budget(5, 80)):
